@@ -10,7 +10,7 @@ from framework import pmap
 
 ID = 'C14'
 LEAN_MODULES = ['Pfst.Props.C14']
-LEAN_DEPS = ['Pfst.Props.C14Tables', 'Pfst.Props.C14Static', 'Pfst.WalkLemmas', 'Pfst.NavLemmas', 'Pfst.SynOrderLemmas',
+LEAN_DEPS = ['Pfst.Props.C14Tables', 'Pfst.Props.C14TablesB', 'Pfst.Props.C14Covers', 'Pfst.Props.C14Static', 'Pfst.Props.C14StaticB', 'Pfst.WalkLemmas', 'Pfst.NavLemmas', 'Pfst.SynOrderLemmas',
              'Pfst.Walk', 'Pfst.SynOrder', 'Pfst.TableCheck', 'Pfst.Drv.C14']
 THEOREMS = [
     'Pfst.C14.walkEnter_preorder', 'Pfst.C14.walkEnter_norecurse', 'Pfst.C14.walkLeave_postorder',
@@ -241,9 +241,10 @@ def _start(a):
 
 def _program(arg):
     """-> {'cases': [(lean case, impl out)], 'fails': [(sig, what, witness)], 'n': nodes, 'kinds': set}"""
-    src, seed, quick = arg
+    src, seed, quick = arg[:3]
+    oracle_only = len(arg) > 3 and arg[3]
     rng = random.Random(seed)
-    out = {'cases': [], 'fails': [], 'n': 0, 'kinds': set(), 'mixed_calls': 0}
+    out = {'cases': [], 'fails': [], 'n': 0, 'kinds': set(), 'mixed_calls': 0, 'exc': None}
     from fst import FST
     try:
         root = FST(src, 'exec')
@@ -371,7 +372,7 @@ def _program(arg):
             except Exception as e:
                 fail('walk', 'Module', 'raised', f'walk(all={fname}, back={back}) raised {e!r}')
     # step chains
-    for fname, flt in ofilters[:3]:
+    for fname, flt in ofilters:
         try:
             ch = [id(g.a) for g in _chain(root, lambda g: g.step_fwd(flt), n + 2)]
             if ch != [id(a) for a in rec_pre(ra, False, [])[1:] if passes(a, flt)]:
@@ -429,7 +430,21 @@ def _program(arg):
                 fail('child_from_path', cls, 'roundtrip-str', 'string path round trip does not return the node')
         except Exception as e:
             fail('nav', cls, 'raised', f'navigation raised {e!r}')
-    # ---- correspondence cases -----------------------------------------------------------------------------------------
+    if oracle_only:
+        return out
+    try:
+        _corr_cases(out, src, root, tree, ids, nodes, rng, quick)
+    except Exception:
+        import traceback
+        out['exc'] = traceback.format_exc()[-1200:]
+        out['cases'] = []
+    return out
+
+
+def _corr_cases(out, src, root, tree, ids, nodes, rng, quick):
+    """correspondence cases of one program (appended to out['cases'])"""
+    n = len(nodes)
+    fails = out['fails']
     cases = out['cases']
     ats = [0] + ([rng.randrange(n) for _ in range(2 if quick else 4)] if n > 1 else [])
     for at in dict.fromkeys(ats):
@@ -545,7 +560,6 @@ def _program(arg):
                 if not (srt(args) and srt(a.keywords) and sep):
                     fails.append((f'C14|hypothesis|{a.__class__.__name__}|positions-not-sorted',
                                   'CPython positions violate the hypotheses of merge_sorted', {'src': src}))
-    return out
 
 
 # ---------------------------------------------------------------------------------------------------------------------
@@ -584,6 +598,8 @@ def _run(ctx, progs, quick, tag):
     kinds = set()
     mixed = 0
     for r in res:
+        if r['exc']:
+            ctx.brk('correspondence', 'serialisation', 'the tree could not be put into correspondence with the model: ' + r['exc'])
         kinds |= r['kinds']
         mixed += r['mixed_calls']
         for c, i, sz in r['cases']:
@@ -682,7 +698,7 @@ def search(ctx):
     progs = list(EXTRA_SNIPPETS) + list(corpus.SNIPPETS)
     rng = random.Random(ctx.rng.random())
     progs += corpus.programs(rng, 2500, stdlib=250)
-    res = pmap(_oracle_only, [(p, ctx.rng.randrange(1 << 30), True) for p in progs])
+    res = pmap(_oracle_only, [(p, ctx.rng.randrange(1 << 30), True, True) for p in progs])
     nfail = 0
     for fl in res:
         for sig, what, w in fl:
@@ -701,7 +717,7 @@ def replay(ctx, data):
     if not w or 'src' not in w:
         print('replay file names a broken obligation, not an input:', [b for b in data.get('broken', [])][:3])
         return
-    r = _program((w['src'], 1, True))
+    r = _program((w['src'], 1, True, True))
     for sig, what, wit in r['fails']:
         if sig == data.get('signature') or not data.get('signature'):
             ctx.fail('replay', what, wit)
